@@ -247,3 +247,24 @@ E.append(('C13', 'benign', P, "        seg_global_min = min(extrema, key=itemget
 
 E.append(('C16', 'benign', P, "        if t0 == 0 and t1 == 1:\n            if self._length_info['bpoints'] == self.bpoints() \\\n                    and self._length_info['error'] <= error \\", "        if t0 == 0 and t1 == 1:\n            current_key = self.bpoints()\n            if self._length_info['bpoints'] == current_key \\\n                    and self._length_info['error'] <= error \\", 'cache key held in a local'))
 E.append(('C16', 'break', P, "            if self._length_info['bpoints'] == self.bpoints() \\\n                    and self._length_info['error'] <= error \\\n                    and self._length_info['min_depth'] >= min_depth:", "            if self._length_info['bpoints'] == self.bpoints() \\\n                    and self._length_info['error'] <= error \\\n                    and self._length_info['min_depth'] <= min_depth:", 'cubic min_depth guard direction'))
+
+# ---------------------------------------------------------------- C11 R11.7 (subdivision solver)
+brk('C11', B, "                if box_area(*bbox1) < tol_deC and box_area(*bbox2) < tol_deC:", "                if box_area(*bbox1) < tol_deC or box_area(*bbox2) < tol_deC:", 'one small box suffices to report a crossing')
+brk('C11', B, "                                  BPair(c11, c22, t11, t22),", "                                  BPair(c11, c22, t11, t21),", 'child pair carries the parameter of the other half')
+brk('C11', B, "                    (t21, t22) = (pair.t2 - delta, pair.t2 + delta)", "                    (t21, t22) = (pair.t2 + delta, pair.t2 - delta)", 'halves of the second curve labelled in reverse')
+brk('C11', B, "        delta = 0.5**(k + 2)", "        delta = 0.5**(k + 1)", 'parameter step twice too large')
+brk('C11', B, "                        intersection_list.append((pair.t1, pair.t2))", "                        intersection_list.append((pair.t2, pair.t1))", 'reported pair swapped')
+ben('C11', B, "                if box_area(*bbox1) < tol_deC and box_area(*bbox2) < tol_deC:", "                small1 = box_area(*bbox1) < tol_deC\n                if small1 and tol_deC > box_area(*bbox2):", 'name one of the tests and flip the other comparison')
+ben('C11', B, "                    (t11, t12) = (pair.t1 - delta, pair.t1 + delta)", "                    t11 = pair.t1 - delta\n                    t12 = t11 + 2*delta", 'derive the second mid parameter from the first')
+
+# ---------------------------------------------------------------- C12 (semantic R12.2 / R12.3 / R12.5)
+brk('C12', P, "            if degs < domain_lower_limit:\n                degs += 360", "            if degs > domain_lower_limit:\n                degs += 360", 'wrap test inverted')
+brk('C12', P, "            k = domain_lower_limit // 360", "            k = domain_lower_limit // 180", 'limit floor-divided by 180')
+brk('C12', P, "            degs = degrees(rads % (2*pi))", "            degs = degrees(rads % pi)", 'phase reduced modulo pi')
+brk('C12', P, "        return (degs - self.theta)/self.delta", "        return (degs - self.theta)/abs(self.delta)", 't formula loses the sign of delta')
+brk('C12', B, "    for bez_t in set(roots_y):", "    for bez_t in roots_y:", 'a repeated root is reported twice')
+brk('C12', B, "            line_t = xval/line_length\n            intersection_list.append((bez_t, line_t))", "            line_t = xval/line_length\n            intersection_list.append((line_t, bez_t))", 'pair order swapped in the line solver')
+brk('C12', P, "                    if abs(pts[ind1] - pts[ind2]) < tol:\n                        # then there's a redundancy. Remove it.\n                        indices2remove.append(ind2)", "                    if abs(pts[ind1] - pts[ind2]) < tol:\n                        # then there's a redundancy. Remove it.\n                        indices2remove.append(ind1)", 'the earlier crossing of a close pair is dropped')
+brk('C12', P, "                    if abs(pts[ind1] - pts[ind2]) < tol:\n                        # then", "                    if abs(pts[ind1] - pts[ind2]) < tol*(1 + abs(pts[ind1])):\n                        # then", 'relative redundancy tolerance')
+ben('C12', P, "            k = domain_lower_limit // 360\n            degs += k * 360", "            degs += 360 * (domain_lower_limit // 360)", 'inline k')
+ben('C12', B, "        if 0 <= xval <= line_length:", "        if xval >= 0 and line_length >= xval:", 'expanded chained comparison')
